@@ -1,4 +1,4 @@
-import KoordVerif.Proofs.C01ExtExample
+import KoordVerif.Proofs.C01ExtMixed
 /-
 C01 — elastic-quota used/request accounting is exact over any event history.
 
@@ -31,10 +31,19 @@ Theorems (all for arbitrary states / trees / amounts / histories, no size bound)
   the old pod object handed to a handler is the one delivered last (informer consistency);
   MigratePod is called for a cached pod (a target that already holds the pod is left alone — repair 5a63beb —, so
   nothing is required of the target beyond existing and declaring the dimension).
-  T6 `delta_commute_sections`, `section_preserves_invariant`, `interleaving_*`, `handlers_interleaving_*`:
-     the SCHEDULES quantifier — pod handlers on distinct pods interleaved at the granularity of their separately
-     locked sections (see the section "SCHEDULES" below).  Not covered: two handlers for the SAME pod in flight at
-     once (the informer delivers the events of one pod in order), the Go memory model / sync.RWMutex (trusted).
+  T6 the SCHEDULES quantifier — pod handlers on distinct pods interleaved at the granularity of their separately
+     locked sections (section "SCHEDULES" below; development in Proofs/C01Ext*.lean):
+     `section_preserves_invariant`  one section keeps the invariant that holds BETWEEN sections (`CI`)
+     `delta_commute_sections`       two sections / delta propagations of different pods commute
+     `handler_sections`             OnPodAdd / OnPodUpdate / OnPodDelete = their section lists (tied to the Go source
+                                    order by Ties/C01.lean), safe under the sequential precondition
+     `handlers_interleaving_exact`  ANY complete interleaving of N handlers ends with `LocalInv` and the figures of
+                                    `run s0 ops`;  `handlers_any_order`: in whatever order the ops are applied;
+     `handlers_interleaving_between`, `interleaving_*`: the invariant at every intermediate point, generic pools.
+     Not covered: two handlers for the SAME pod in flight at once (the informer delivers the events of one pod in
+     order), interleavings finer than a section and the Go memory model / sync.RWMutex (trusted; the extracted facts
+     show each section holds its lock around all its accesses), operations under the hierarchy WRITE lock running
+     concurrently with handlers (they are atomic steps at quiescent points; sampled by the mgr harness' batches).
 -/
 namespace KoordVerif.C01
 
@@ -253,6 +262,14 @@ theorem handlers_interleaving_exact {s0 : State} {evs : List PodEv} (hg : Good s
     (∀ m j, entry s m j = entry (run s0 (evs.map PodEv.op)) m j) :=
   handlers_serializable hg hn hpre hs hq
 
+/-- "…the same figures as SOME sequential order": as ANY sequential order — pod events on distinct pods, each
+admissible in the start state, give the same figures whatever order the atomic model applies them in. -/
+theorem handlers_any_order {s0 : State} {evs evs' : List PodEv} (hg : Good s0) (hperm : evs.Perm evs')
+    (hn : (evs.map PodEv.id).Nodup) (hpre : ∀ ev ∈ evs, ev.Pre s0) :
+    ∀ m q q', get? (run s0 (evs.map PodEv.op)) m = some q → get? (run s0 (evs'.map PodEv.op)) m = some q' →
+      aggs q = aggs q' :=
+  handlers_order_independent hg hperm hn hpre
+
 /-- …and BETWEEN any two sections of such an interleaving the section invariant holds (every tree equation; the
 pods without a handler in flight settled) and no figure of any group is negative. -/
 theorem handlers_interleaving_between {s0 : State} {evs : List PodEv} (hg : Good s0) (hn : (evs.map PodEv.id).Nodup)
@@ -261,6 +278,22 @@ theorem handlers_interleaving_between {s0 : State} {evs : List PodEv} (hg : Good
     ∃ c, CI s c ∧ (∀ j, j ∉ pool.map (·.1) → ∀ m, Settled s c m j) ∧
       ∀ m q, get? s m = some q → RNonneg q ∧ UNonneg q :=
   handlers_between hg hn hpre hs
+
+/-- WHOLE executions: write-locked operations (atomic, `PreF`) alternating with pools of concurrently running pod
+handlers on distinct pods (any complete interleaving of their sections): the invariant — hence `LocalInv`, hence
+non-negativity — holds at every quiescent point, in particular at the end. -/
+theorem execution_localInv {s s' : State} {phases : List Phase} (hg : Good s) (h : MExec s phases s') :
+    Good s' ∧ LocalInv s' ∧ ∀ m q, get? s' m = some q → RNonneg q ∧ UNonneg q := by
+  have hg' := mexec_good hg h
+  exact ⟨hg', good_localInv hg', localInv_nonneg hg'.topo.tree hg'.params (good_localInv hg')⟩
+
+/-- …and the figures reported there are a function of the static data and of the cache ENTRIES alone (T2 up to the
+order inside the cache lists, which is all an interleaving can change): any two quiescent states that agree on
+these — e.g. the end of an execution and a fresh manager fed the same final objects — report identical figures. -/
+theorem quiescent_figures_determined {A B : State} (hA : Good A) (hB : Good B) (hs : A.map statN = B.map statN)
+    (he : ∀ m j, entry A m j = entry B m j) :
+    ∀ m qa qb, get? A m = some qa → get? B m = some qb → aggs qa = aggs qb :=
+  figures_determined hA hB hs he
 
 /-! ### dimension-wise decomposition -/
 
